@@ -604,7 +604,10 @@ def run_case(ctx, case0):
             app = H.make_app(rec, compression={} if deflate else None, settings=settings)
             peer = H.RefClient(app, ext=ext)
             if not await peer.handshake():
-                return ctx.fail("C15.handshake_failed", {"wire": peer.session.wire[:200]})
+                return ctx.fail("C15.handshake_extension_response_invalid" if (peer.error or "").startswith("extension response invalid")
+                                else "C15.handshake_failed", {"error": peer.error, "wire": peer.session.wire[:200]})
+            if rec.handler is None:
+                return ctx.fail("C15.open_not_called_after_101", {})
             stream = peer.stream
             received = rec.messages
             closes = lambda: rec.count("close")
@@ -880,8 +883,8 @@ def run_frames_case(ctx, case):
         rec = H.Recorder()
         if role == "server":
             peer = H.RefClient(H.make_app(rec))
-            if not await peer.handshake():
-                return ctx.fail("C15.handshake_failed", {})
+            if not await peer.handshake() or rec.handler is None:
+                return ctx.fail("C15.handshake_failed", {"error": peer.error})
             stream, received, closes = peer.stream, rec.messages, (lambda: rec.count("close"))
             code = lambda: next((e[1] for e in rec.events if e[0] == "close"), rec.handler.close_code)
         else:
